@@ -17,3 +17,28 @@ TRUSTED = [
     'hierarchies are acyclic) and over the node tree (A-TREE)',
     'A-TREE, A-LIST',
 ]
+
+L = 'yatiml/loader.py::Loader.'
+LOADER = [L + m for m in ('__type_to_tag', '__savorize', '__process_node',
+                          'get_single_node')]
+STRIP = ['yatiml/util.py::strip_tags']
+C = 'yatiml/constructors.py::'
+CONSTR = [C + 'Constructor.__strip_extra_attributes',
+          C + 'EnumConstructor.__call__',
+          C + 'UserStringConstructor.__call__',
+          C + 'PathConstructor.__call__']
+LOAD_TRUSTED = TRUSTED + [
+    'H-SAV: _yatiml_savorize hooks may replace the node by any node or '
+    'raise SeasoningError; deterministic',
+    'H-NEW: string-like constructors / __init__ may raise anything',
+    'E-COMPOSE: PyYAML parse+compose yields YAMLError, no document, or a '
+    'node tree of Scalar/Sequence/Mapping nodes',
+    'E-CONSTRUCT: PyYAML constructs by node tag; SafeConstructor scalar '
+    'constructors return the kind of their tag',
+    'E-RESOLVE-CORE: resolve() returns core-schema tags',
+    'prefix/append locality of index-recursive spec functions '
+    '(meta-theorem of the spec language)',
+    'NOT YET UNDER CONTRACT: Constructor.__call__ and its attribute type '
+    'check (__type_matches, __check_no_missing_attributes, '
+    '__type_check_attributes, __split_off_extra_attributes)',
+]
